@@ -16,11 +16,13 @@ pub struct Opts {
     pub seed: u64,
     pub out: PathBuf,
     pub replay: Option<PathBuf>,
+    /// divide the number of random cases by this (used when several generators share a check)
+    pub scale: usize,
 }
 
 fn main() {
     let args: Vec<String> = std::env::args().collect();
-    let mut opts = Opts { prop: String::new(), thorough: false, seed: 1, out: PathBuf::from("."), replay: None };
+    let mut opts = Opts { prop: String::new(), thorough: false, seed: 1, out: PathBuf::from("."), replay: None, scale: 1 };
     let mut i = 1;
     while i < args.len() {
         match args[i].as_str() {
@@ -87,6 +89,46 @@ fn main() {
             let mut sink = cases::CaseSink::new("C08", "Corr.C08 Corr.BinCorr Model.BinaryStart Model.Joins", &opts.out, 100);
             props::c08::generate(&opts, &mut sink);
             sink.finish(props::c08::RULE, serde_json::json!({}));
+        }
+        "C05" | "C06" => {
+            // the component cases re-evaluated against the protocol grammar (C05) /
+            // watermark safety (C06); fewer cases per component than in their own checks
+            let c05 = opts.prop == "C05";
+            let module = if c05 { "Corr.C05" } else { "Corr.C06" };
+            let mut sink = cases::CaseSink::new(&opts.prop, &format!("Corr.BinCorr Model.BinaryStart Model.Joins Corr.C08 {module}"), &opts.out, 150);
+            let sub = Opts { prop: opts.prop.clone(), thorough: opts.thorough, seed: opts.seed, out: opts.out.clone(), replay: None, scale: 3 };
+            sink.wrap = Some(("KStart".into(), "C17".into()));
+            props::c17::generate(&sub, &mut sink);
+            if c05 {
+                sink.wrap = Some(("KBin".into(), "C11".into()));
+                props::c11::generate_plain(&sub, &mut sink);
+                sink.wrap = Some(("KJoin".into(), "C08".into()));
+                props::c08::generate(&sub, &mut sink);
+            }
+            sink.wrap = Some(("KAgg".into(), "C07".into()));
+            props::c07::generate(&sub, &mut sink);
+            sink.wrap = Some(("KCount".into(), "C12".into()));
+            props::c12::generate_random(&sub, &mut sink);
+            sink.wrap = Some(("KEvent".into(), "C13".into()));
+            props::c13::generate(&sub, &mut sink);
+            sink.wrap = Some(("KReorder".into(), "C16".into()));
+            props::c16::generate(&sub, &mut sink);
+            sink.finish(if c05 { props::RULE_C05 } else { props::RULE_C06 }, serde_json::json!({}));
+        }
+        "C03" => {
+            let mut sink = cases::CaseSink::new("C03", "Model.End Corr.LinkCorr Corr.C03", &opts.out, 150);
+            props::link::generate_c03(&opts, &mut sink);
+            sink.finish(props::link::RULE_C03, serde_json::json!({}));
+        }
+        "C02" => {
+            let mut sink = cases::CaseSink::new("C02", "Model.End Corr.LinkCorr Corr.C02", &opts.out, 100);
+            props::link::generate_c02(&opts, &mut sink);
+            sink.finish(props::link::RULE_C02, serde_json::json!({}));
+        }
+        "C09" => {
+            let mut sink = cases::CaseSink::new("C09", "Model.End Corr.LinkCorr Corr.BinCorr Model.BinaryStart Corr.C09", &opts.out, 100);
+            props::c09::generate(&opts, &mut sink);
+            sink.finish(props::c09::RULE, serde_json::json!({}));
         }
         p => {
             eprintln!("unknown property {p}");
